@@ -21,7 +21,7 @@ ASSUMPTIONS = [
     "Candle objects handed to append become owned by the library; only dicts and lists are required to stay unchanged",
     "ISO strings are used as timestamps only in the dict form (the list form documents datetime only)",
 ]
-PARTIAL = "accessor purity holds by construction in the model (accessors are functions of the state); that the CODE has no hidden side effects and that all input encodings agree is established by correspondence (access, hexital.access) and oracle; proved: append delivers the same candles to every timeframe's manager"
+PARTIAL = "read accessors are pure functions in the model by construction, so for them the tie (accessor-interleaved components) and the deep-snapshot oracle carry the claim; proved: every input encoding of fresh candles (Candle / dict / list with timestamp first, last or absent; bare or listed) decodes to the same candles (encodings_agree), Hexital.append hands the same candles to every timeframe's manager and changes no manager configuration; that the caller's own containers are not mutated is a property of Python object identity the model cannot express (oracle only)"
 
 
 def oracle(ctx):
